@@ -223,30 +223,4 @@ def checkB (sigs : Sigs) (i : Instr) : Except Err Accesses → Bool
   | .ok a => resolvableB sigs i && sameSetB a.reads (specReads sigs i) &&
       sameSetB a.writes (specWrites sigs i) && sameSetB a.captures (specCaptures i)
 
-/-! ### where the unchanged code departs from the specification
-
-Three instruction shapes (found while proving; confirmed against the real code, see docs/C27.md):
-  * DEFFRAME whose attribute expressions mention a region          (arm reports nothing)
-  * DEFGATE … AS PAULI-SUM whose term expressions mention a region  (arm reports nothing)
-  * CALL with more arguments than the signature has slots          (the `zip` drops the extra arguments)
-`Regular` excludes exactly these, recursively through bodies. -/
-
-def callArityOk (sigs : Sigs) (name : String) (args : List Arg) : Bool :=
-  match sigs.lookup name with
-  | none => true
-  | some sig => args.length ≤ sig.params.length + retSlots sig
-
-mutual
-def regularB (sigs : Sigs) : Instr → Bool
-  | .frameDefinition es => (es.map exprRegions).flatten.isEmpty
-  | .gateDefinition (.pauliSum es) => (es.map exprRegions).flatten.isEmpty
-  | .call name args => callArityOk sigs name args
-  | .calibrationDefinition _ body | .circuitDefinition body | .measureCalibrationDefinition body =>
-    regularAllB sigs body
-  | _ => true
-def regularAllB (sigs : Sigs) : List Instr → Bool
-  | [] => true
-  | j :: js => regularB sigs j && regularAllB sigs js
-end
-
 end QV.C27
